@@ -394,6 +394,9 @@ func VerifyFunc(w *World, fi *FuncInfo) (res *FuncResult) {
 			nloops++
 		case *ast.CallExpr:
 			calls[exprText(v.Fun)] = true
+			if se, ok := unparen(v.Fun).(*ast.SelectorExpr); ok {
+				calls["*."+se.Sel.Name] = true
+			}
 			if len(v.Args) > 0 && fi.Pkg.P.TypesInfo != nil {
 				if tv, ok := fi.Pkg.P.TypesInfo.Types[v.Args[0]]; ok {
 					if n := typeName(pointee(tv.Type)); n != "" {
